@@ -803,54 +803,89 @@ def rule_r5(prog, res) -> None:
 # ----------------------------------------------------------------------------- R6
 
 
+def _measure_paths(prog, fi):
+    """paths of autocorrelate / crosscorrelate for every combination of optional inputs (randoms given or not,
+    optional counts requested or not), on the root rank, logging branches skipped"""
+    import itertools
+
+    from .. import symx
+
+    params = fi.param_names()
+    opt = [p for p in params if "rand" in p.lower() and p != "random"]  # optional random catalogs
+    flags = [p for p in params if p.startswith("count_")]
+    out = []
+    for combo in itertools.product((True, False), repeat=len(opt) + len(flags)):
+        env = {"on_root()": True}
+        for p, v in zip(opt, combo):
+            env[p] = "SOME" if v else None
+        for p, v in zip(flags, combo[len(opt) :]):
+            env[p] = v
+        for p in symx.explore(prog, fi, env=env, inline=symx.inline_private_helpers(prog, public={"get_max_angle", "check_patch_conistency", "process_patch_pair"}), skip_tests=("logger",)):
+            if p.outcome == "return":
+                out.append((env, p))
+    return out
+
+
+def _catalog_args(call: ast.Call, env: dict) -> list:
+    """names of the catalog parameters handed to a count_pairs call (None arguments dropped)"""
+    cats = []
+    for a in call.args:
+        if isinstance(a, ast.Constant) and a.value is None:
+            cats.append(None)
+        elif isinstance(a, ast.Name):
+            cats.append(None if env.get(a.id, "SOME") is None else a.id)
+        else:
+            cats.append("?" + unparse(a)[:30])
+    return cats
+
+
 def rule_r6(prog, res) -> None:
-    """role typing of DD / DR / RD / RR"""
+    """role typing of DD / DR / RD / RR: decided on the symbolic store of autocorrelate / crosscorrelate for every
+    combination of optional inputs — the value handed to each CorrFunc slot is the count of (data|random, data|random)
+    catalogs that the slot is named after"""
     n = 0
+    role = lambda v: "r" if "rand" in v.lower() else "d"  # noqa: E731
+    slots = ["dd", "dr", "rd", "rr"]
     for name in ("autocorrelate", "crosscorrelate"):
         fi = prog.func(name)
         res.touch(fi)
         fn = fi.node
-        role = lambda v: "r" if "rand" in v.lower() else "d"  # noqa: E731
-        counts = {}
-        for x in walk_no_nested(fn):
-            if isinstance(x, ast.Assign) and isinstance(x.targets[0], ast.Name) and isinstance(x.value, ast.Call) and isinstance(x.value.func, ast.Attribute) and x.value.func.attr.startswith("count_pairs"):
-                cats = []
-                for a in x.value.args:
-                    if isinstance(a, ast.IfExp):
-                        a = a.body
-                    cats.append(a.id if isinstance(a, ast.Name) else "?")
-                counts[x.targets[0].id] = cats
-        ctor = [c for c in calls_in(fi) if any(k.name == "CorrFunc" for k in prog.resolve_call(fi, c).classes())]
-        if len(ctor) != 1:
-            raise AnalysisError(f"C01.R6: CorrFunc construction in {name} not found")
-        comp = None
-        for x in walk_no_nested(fn):
-            if isinstance(x, ast.ListComp) and any(y is ctor[0] for y in ast.walk(x)):
-                comp = x
-        if comp is None or not (isinstance(comp.generators[0].iter, ast.Call) and (dotted(comp.generators[0].iter.func) or "") == "zip"):
-            raise AnalysisError(f"C01.R6: CorrFunc list comprehension in {name} not recognised")
-        loopvars = [e.id for e in comp.generators[0].target.elts]
-        srcs = [a.id for a in comp.generators[0].iter.args]
-        var2src = dict(zip(loopvars, srcs))
-        slots = ["dd", "dr", "rd", "rr"]
-        for slot, a in zip(slots, ctor[0].args):
-            if isinstance(a, ast.Constant) and a.value is None:
-                continue
-            n += 1
-            src = var2src.get(a.id) if isinstance(a, ast.Name) else None
-            cats = counts.get(src)
-            if not cats:
-                raise AnalysisError(f"C01.R6: cannot trace slot {slot} of CorrFunc in {name}")
-            r1 = role(cats[0])
-            r2 = role(cats[1]) if len(cats) > 1 else r1
-            if r1 + r2 == slot:
-                res.ok("C01.R6", res.site(fi, f"slot {slot}"), f"{slot} <- count_pairs({', '.join(cats)})")
-            else:
-                res.violation("C01.R6", fi, ctor[0], f"CorrFunc slot '{slot}' receives the pair counts of ({', '.join(cats)}), i.e. {(r1 + r2).upper()}", key_extra=f"{name}-slot-{slot}")
-        if name == "crosscorrelate":
-            for v, cats in counts.items():
-                if len(cats) == 2 and not (("ref" in cats[0]) and ("unk" in cats[1])):
-                    res.violation("C01.R6", fi, fn, f"{v} = count_pairs({cats}): the reference sample must be the first (binned) and the unknown sample the second catalog", key_extra=f"cross-order-{v}")
+        seen = set()
+        for env, p in _measure_paths(prog, fi):
+            comp = p.value
+            if not (isinstance(comp, ast.ListComp) and len(comp.generators) == 1 and isinstance(comp.generators[0].iter, ast.Call) and (dotted(comp.generators[0].iter.func) or "") == "zip"):
+                raise AnalysisError(f"C01.R6: CorrFunc list comprehension in {name} not recognised")
+            ctor = comp.elt
+            if not (isinstance(ctor, ast.Call) and (dotted(ctor.func) or "").split(".")[-1] == "CorrFunc"):
+                raise AnalysisError(f"C01.R6: CorrFunc construction in {name} not found")
+            tgt = comp.generators[0].target
+            loopvars = [e.id for e in (tgt.elts if isinstance(tgt, ast.Tuple) else [tgt])]
+            var2src = dict(zip(loopvars, comp.generators[0].iter.args))
+            given = list(zip(slots, ctor.args)) + [(k.arg, k.value) for k in ctor.keywords if k.arg in slots]
+            for slot, a in given:
+                if isinstance(a, ast.Constant) and a.value is None:
+                    continue
+                src = var2src.get(a.id) if isinstance(a, ast.Name) else None
+                if not (isinstance(src, ast.Call) and isinstance(src.func, ast.Attribute) and src.func.attr.startswith("count_pairs")):
+                    raise AnalysisError(f"C01.R6: cannot trace slot {slot} of CorrFunc in {name}")
+                cats = _catalog_args(src, env)
+                if any(c is None for c in cats):
+                    continue  # this count is not carried out for these inputs
+                if any(c.startswith("?") for c in cats):
+                    raise AnalysisError(f"C01.R6: catalog argument of the {slot} count in {name} is not a catalog parameter ({cats})")
+                key = (slot, tuple(cats))
+                if key in seen:
+                    continue
+                seen.add(key)
+                n += 1
+                r1 = role(cats[0])
+                r2 = role(cats[1]) if len(cats) > 1 else r1
+                if r1 + r2 == slot:
+                    res.ok("C01.R6", res.site(fi, f"slot {slot} {cats}"), f"{slot} <- count_pairs({', '.join(cats)})")
+                else:
+                    res.violation("C01.R6", fi, p.node or fn, f"CorrFunc slot '{slot}' receives the pair counts of ({', '.join(cats)}), i.e. {(r1 + r2).upper()}", key_extra=f"{name}-slot-{slot}")
+                if name == "crosscorrelate" and len(cats) == 2 and not (("ref" in cats[0]) and ("unk" in cats[1])):
+                    res.violation("C01.R6", fi, p.node or fn, f"{slot} = count_pairs({cats}): the reference sample must be the first (binned) and the unknown sample the second catalog", key_extra=f"cross-order-{slot}")
     if n < 7:
         raise AnalysisError(f"C01.R6: only {n} CorrFunc slots traced, minimum 7")
 
